@@ -170,6 +170,14 @@ class Weaver:
                 j = i + 1
                 sections = []
                 cur = None
+                # `//@sections FILE` inlines the section lines of another file (shared contracts for twin engines)
+                k2 = i + 1
+                while k2 < len(lines) and lines[k2].strip() != "//@end":
+                    if lines[k2].strip().startswith("//@sections "):
+                        incp = os.path.join(os.path.dirname(path), lines[k2].strip()[len("//@sections "):].strip())
+                        lines[k2:k2 + 1] = open(incp, encoding="utf-8").read().rstrip("\n").split("\n")
+                        continue
+                    k2 += 1
                 while j < len(lines) and lines[j].strip() != "//@end":
                     s2 = lines[j].strip()
                     if s2.startswith("//@"):
@@ -252,6 +260,8 @@ class Weaver:
         ret_name = None
         new_name = None
         param_plus = []
+        twins = []
+        loop_hdr = set()
         for (hd, body, lno) in sections:
             w = hd.split()
             if not w:
@@ -315,11 +325,16 @@ class Weaver:
                     elog.append("R8: loop %d iterator named `%s` (ghost only)" % (n, w[3]))
                 else:
                     pos = T(lp["body_open"]).start
-                    prio = {"invariant_except_break": 10, "invariant": 11, "ensures": 12, "decreases": 13}[what]
-                    add(pos, pos, "\n" + what + "\n" + raw(body), "contract", prio, origin=tmpl_origin(lno, 2))
+                    prio = {"invariant_except_break": 10, "invariant": 12, "ensures": 14, "decreases": 16}[what]
+                    if (n, what) not in loop_hdr:
+                        loop_hdr.add((n, what))
+                        add(pos, pos, "\n" + what + "\n", "contract", prio)
+                    add(pos, pos, raw(body), "contract", prio + 1, origin=tmpl_origin(lno))
             elif k == "at":
                 where = hd[2:].strip()
                 self._anchor(where, body, lno, src, toks, it, loops, add, tmpl_origin, f, head["fn"])
+            elif k == "twin":
+                twins.append(_parse_re_arrow(hd[len("twin"):]))
             elif k == "replace":
                 pat, repl, allf = _parse_re_arrow(hd[len("replace"):])
                 bs, be = T(body_lo).end, T(body_hi).start
@@ -371,7 +386,7 @@ class Weaver:
             add(p2, p2, " assert(false); ", "vacuity", 99)
 
         # automatic rules ---------------------------------------------------
-        self._auto_rules(src, toks, it, loops, add, elog, norules, f, head["fn"])
+        self._auto_rules(src, toks, it, loops, add, elog, norules, f, head["fn"], twins)
 
         # apply -----------------------------------------------------------------
         edits.sort(key=lambda e: (e[0], 0 if e[0] == e[1] else 1, e[2], e[3]))
@@ -527,7 +542,7 @@ class Weaver:
         return True
 
     # ------------------------------------------------------------------
-    def _auto_rules(self, src, toks, it, loops, add, elog, norules, f, fn):
+    def _auto_rules(self, src, toks, it, loops, add, elog, norules, f, fn, twins=()):
         T = lambda i: toks[i]
         lo, hi = it.body_open + 1, it.body_close
         line = lambda off: src.count("\n", 0, off) + 1
@@ -630,7 +645,7 @@ class Weaver:
                 if set(conts) != handled:
                     raise Lost("%s::%s: R10 side condition violated (a `continue` that is not the sole statement of a top-level `if`)" % (f, fn))
                 pz = T(lp["body_close"]).start
-                add(pz, pz, "}" * closers + "\n", "R10", 55)
+                add(pz, pz, "}" * closers + "\n", "R10", 95)
         # R2: debug_assert*/assert*
         if "R2" not in norules:
             for mc in rl.find_macros(toks, lo, hi, {"debug_assert", "debug_assert_eq", "debug_assert_ne",
@@ -652,6 +667,12 @@ class Weaver:
                     endb = T(args[0][1]).start if len(args) > 1 else T(mc["close"]).start
                     add(endb, T(mc["close"]).end, ")", "R2")
                 elog.append("R2: `%s!` => proof obligation `assert(..)` (line %d)" % (nm, line(s0)))
+                # exec calls inside the asserted expression are replaced by their spec twins (overlay table, optional)
+                a0, a1 = T(mc["open"]).end, T(mc["close"]).start
+                for (pat, repl, _allf) in twins:
+                    for m in re.finditer(pat, src[a0:a1]):
+                        add(a0 + m.start(), a0 + m.end(), m.expand(repl), "R2-twin")
+                        elog.append("R2: spec twin `%s` => `%s` inside the assertion (line %d)" % (m.group(0), m.expand(repl), line(a0 + m.start())))
         # R3: diagnostics
         if "R3" not in norules:
             for mc in rl.find_macros(toks, lo, hi, DROP_STMT_MACROS | {"format"}):
